@@ -334,6 +334,7 @@ func famC14(r *Run) {
 	famQuotedControl(r)
 	famNonASCIIBare(r)
 	famCaseTwins(r)
+	famMultiRawTargeted(r)
 }
 
 func rawOrLit(s string) string {
